@@ -54,6 +54,14 @@ class Similarity(Affine):
         return header + reduce(lambda x, y: x + "\n" + "  " + y, list_str, "  ")
 
     @property
+    def composes_inplace_with(self):
+        r"""
+        :class:`Similarity` can swallow composition with any other
+        :class:`Similarity`.
+        """
+        return Similarity
+
+    @property
     def n_parameters(self):
         r"""Number of parameters of Similarity
 
